@@ -208,6 +208,46 @@ def prove(ctx, files):
             for n in names or [vf]:
                 ctx.broken.append(f"{vf}:{n}")
             ctx.log(f"FAILED to check {vf}:\n{err}")
+    if ctx.tier == "thorough":
+        coqchk(ctx, files)
+
+
+def coqchk(ctx, files, timeout=1500):
+    """Thorough tier: re-check the property's compiled files and everything they depend on with the
+    independent checker; its context summary (axioms of every loaded library) goes into the evidence.
+    Anything but standard-library axioms, or a failure of the checker, breaks the obligations."""
+    mods = ["NSG." + vf[:-2].replace("/", ".") for vf in files if vo_up_to_date(vf)]
+    if not mods:
+        return
+    lock = _lock()
+    try:
+        r = subprocess.run(["timeout", str(timeout), "coqchk", "-o", "-silent", "-Q", ".", "NSG"] + mods,
+                           cwd=COQ, capture_output=True, text=True)
+    finally:
+        lock.close()
+    out = r.stdout + r.stderr
+    if r.returncode != 0 or "CONTEXT SUMMARY" not in out:
+        ctx.stage_errors.append(("coqchk", out[-800:]))
+        return
+    summ = out[out.index("CONTEXT SUMMARY"):]
+    sect = {}
+    cur = None
+    for line in summ.splitlines():
+        m = re.match(r"\* ([^:]+):\s*(.*)", line)
+        if m:
+            cur = m.group(1).strip()
+            sect[cur] = [m.group(2).strip()] if m.group(2).strip() else []
+        elif cur and line.strip() and not set(line.strip()) <= {"="}:
+            sect[cur].append(line.strip())
+    axioms = [a for a in sect.get("Axioms", []) if a != "<none>"]
+    foreign = [a for a in axioms if not a.startswith("Coq.")]
+    bad = {k: v for k, v in sect.items() if k not in ("Theory", "Axioms") and v != ["<none>"]}
+    if foreign or bad:
+        ctx.stage_errors.append(("coqchk context", f"axioms outside the standard library: {foreign}; {bad}"))
+    ctx.coverage["coqchk"] = {"modules": mods, "theory": sect.get("Theory"), "axioms_of_all_loaded_libraries": axioms or ["<none>"],
+                              "type_in_type": sect.get("Constants/Inductives relying on type-in-type"),
+                              "unsafe_fixpoints": sect.get("Constants/Inductives relying on unsafe (co)fixpoints"),
+                              "assumed_positivity": sect.get("Inductives whose positivity is assumed")}
 
 
 # ------------------------------------------------------------------------------------------
